@@ -211,6 +211,14 @@ def run_for(pid, verbose=True, only=None):
         rc = replay_benign(pid)
         if rc != 0:
             return rc
+    # the canonical forms' own unit checks (negative cases: a normal form must not fire when its side condition fails)
+    if not only:
+        r = subprocess.run([sys.executable, "-m", "sa.canon_selftest"], cwd=str(VERIF), capture_output=True, text=True, timeout=300)
+        print(f"selftest {pid}: {(r.stdout.strip().splitlines() or [''])[-1]}")
+        if r.returncode != 0:
+            print(r.stdout[-1500:])
+            print(f"ANALYSIS-ERROR property={pid}: a canonical form fails its own unit checks")
+            return 2
     # the automatic benign twin: every local variable of every function renamed (tools/alpha_twin.py)
     if not only:
         r = subprocess.run([sys.executable, str(VERIF / "tools" / "alpha_twin.py"), pid], cwd=str(VERIF), capture_output=True, text=True, timeout=900)
